@@ -36,6 +36,7 @@ type Exec struct {
 	Returns    int
 	specEq     bool
 	curCallArgs []Value
+	curCallRecv Value
 	ReplayArgs []TV
 	ReplayLen  []bool
 	ReplayFn   string
